@@ -28,6 +28,11 @@ CLAIMED = {
          "Static decision per MAC payload type of: every in-range value accepted, every accepted value representable (no silent truncation, unit scaling exact), lossless inverse for all accepted values, registry size = encoded length = decoder's exact-length test, plus the structural stream rules (guard before slice, advance by 1+size, unknown CID size 0, port-0 guard truth table). Command sequences are covered through self-delimitation, not enumerated; DeviceTimeAns' missing range guard is outside the domain.",
          "Trusts internal/absint, props/wirespec_mac.go ranges; registry-writer/lock discipline comes from the effects engine (rule R6).",
          "DESIGN.md §3 C07"),
+
+ "C18": ("bit-precise abstract interpretation of every application-layer payload codec in every gate variant (inverse under the specified bit widths, Size() agreement, trailing-byte and truncation runs) and of the TS005 key derivations with AES uninterpreted",
+         "Static decision, for all in-width field values at once, of acceptance, Size() = encoded length, decode(encode(v)) = v, the lower-bound length convention required by the command-stream decoder, and rejection of truncated payloads, for 37 payload types / 50 variants; and equality of the multicast key blocks with TS005. Command sequences are covered by size/stream agreement rather than enumerated; behaviour outside the specified widths is not claimed.",
+         "Trusts internal/absint, props/wirespec_app.go (widths, gate variants), AES as an uninterpreted function.",
+         "DESIGN.md §3 C18"),
 }
 
 NOT_APPLICABLE = {
